@@ -43,6 +43,8 @@ type World struct {
 	allocs   map[string][]int64 // file numbers allocated per thread since the last TakeAllocs
 	// Quiet suppresses events
 	Quiet bool
+	// Silent: operations are counted and AfterOp is called, but no trace event is written
+	Silent bool
 }
 
 var (
@@ -95,7 +97,9 @@ func (w *World) emit(ev string, f trace.F) {
 	if w.Quiet {
 		return
 	}
-	w.Rec.Emit(ev, f)
+	if !w.Silent {
+		w.Rec.Emit(ev, f)
+	}
 	w.nops++
 	if w.AfterOp != nil {
 		w.AfterOp(w.nops, ev)
